@@ -7,6 +7,7 @@ from ..kernel import Violation, ddmin
 ID = 'C18'
 LEVEL = 'exploration'
 SALTS = 1
+NEEDS_LOGICS = False
 RULE = ('each run = one seeded history of <=40 operations (append/add/insert/wedge/remove/discard/pop/'
         'del+assign by index and slice/sort/reverse/clear/copy/set algebra) over a 6-value universe on '
         'qset, linqset or Predicates, with veto faults toggled at seeded positions; judged after every '
